@@ -44,8 +44,15 @@ MANIFEST = dict(
          "reference (setAt, createIn, delAt, pruneUp), nothing raises, and every pop returned the node lookup found in the "
          "state before it (C05_history_delRef ties the reference of delete/pop to delAt / pruneUp; C05_history_pop_gone: a "
          "popped dict entry is absent afterwards, in any state a history reaches). "
-         "Differential only: that every missing path makes item access raise (only the out-of-range-index kind is proved, "
-         "C01_out_of_range_miss), histories whose operations use non-canonical spellings (single operations in every "
+         "Missing paths, unconditional (Proofs/XPathMiss.lean; every spelling of the family, any tree size / depth): the path "
+         "of an existing dict node + a key it does not have + anything (C05_pop_miss_unknown_key, C05_delete_miss_unknown_key), "
+         "the path of an existing scalar + a name step + anything (C05_pop_miss_below_leaf, C05_delete_miss_below_leaf), an "
+         "index out of range on an existing list (C05_pop_miss_out_of_range, C05_delete_miss_out_of_range); canonical path + "
+         "'/k': C05_miss_canonical. Item access raises IndexError, pop returns the default (None without one: pop never "
+         "raises), delete raises KeyError (unknown key) / IndexError (the other two), tree unchanged, both values of "
+         "recursively; the evaluator 'misskinds' executes exactly these statements on the implementation. "
+         "Differential only: misses of other shapes (a name step on a list, an index on a missing key's sibling, hidden-list "
+         "indexes out of range), histories whose operations use non-canonical spellings (single operations in every "
          "spelling are proved), pop of a missing path inside a history, object identity of the popped value, and the "
          "agreement of the models of delete/pop with the real code (compared step by step along random histories in every "
          "spelling lookup accepts); the statement (tree equals a plain reference after each operation, returned values) is "
@@ -158,6 +165,76 @@ def check_history(c):
     return None
 
 
+# ----------------------------------------------------------------------------
+# the three kinds of missing path of C05_pop_miss_* / C05_delete_miss_* (Proofs/XPathMiss.lean), executed on the code
+# ----------------------------------------------------------------------------
+def _idx_text(rng, i):
+    """a spelling of the integer i in the family of the theorems: i, -k, last()-k, a+b"""
+    if i < 0:
+        return rng.choice(["%d" % i, "last()-%d" % (-i - 1)])
+    j = rng.randrange(0, i + 1)
+    return rng.choice(["%d" % i, "%d+%d" % (i - j, j)])
+
+
+def _render_family(rng, tree, pos, lead):
+    """the path of `pos` in the family renderSp: attached or separate indexes, each as i / -k / last() / last()-k / i+j"""
+    out, cur, first = "", tree, True
+    for s in pos:
+        if isinstance(s, str):
+            out += ("" if first else "/") + s
+        else:
+            n = len(cur)
+            sp = rng.choice([str(s), str(s - n), "last()" if s == n - 1 else "last()-%d" % (n - 1 - s), "%d+%d" % (0, s)])
+            out += rng.choice(["", "/"]) + "[" + sp + "]"
+        cur = cur[s]
+        first = False
+    return lead + out
+
+
+def gen_miss_kind(rng, tree):
+    """a missing path below an existing node: (text, kind, class `delete` must raise)"""
+    p, node = rng.choice(X.positions(tree))
+    lead = rng.choice(["", "/", "//"])
+    if isinstance(node, dict):
+        tail = rng.choice(["", "/y", "[0]", "[0]/y", "/[1]", "[last()]/k"])
+        if not p and not tail and not lead:
+            lead = "/"          # a bare name is plain dict access (KeyError), not a path
+        base = _render_family(rng, tree, p, lead)
+        return base + ("/" if p else "") + "zz" + tail, "unknown_key", "KeyError"
+    base = _render_family(rng, tree, p, lead)
+    if isinstance(node, list):
+        n = len(node)
+        i = rng.choice([n, n + 3, -n - 1, -n - 4])
+        return base + rng.choice(["", "/"]) + "[" + _idx_text(rng, i) + "]" + rng.choice(["", "/y", "[0]"]), "out_of_range", "IndexError"
+    return base + "/" + rng.choice(["zz", "a", "zz[0]"]) + rng.choice(["", "/y", "[0]"]), "below_leaf", "IndexError"
+
+
+def check_miss_kind(c):
+    """item access raises IndexError, pop gives the default (None without one), delete raises the class of the theorem;
+    the tree is the one before, every time"""
+    ref = c["tree"]
+    o = X.convert(c["tree"], c["mode"])
+    xp = c["miss"]
+
+    def same():
+        return o == ref and enc_val_plain(o) == enc_val_plain(ref)
+
+    r = core.call(lambda: o[xp])
+    if r != ("err", "IndexError") or not same():
+        return {"getitem": repr(r)[:200], "unchanged": same()}
+    for rec in (False, True):
+        r = core.call(lambda: o.pop(xp, "D", rec))
+        if r != ("ok", "D") or not same():
+            return {"pop_default": repr(r)[:200], "rec": rec, "unchanged": same()}
+        r = core.call(lambda: o.pop(xp, recursively=rec))
+        if r != ("ok", None) or not same():
+            return {"pop_no_default": repr(r)[:200], "rec": rec, "unchanged": same()}
+        r = core.call(lambda: o.delete(xp, rec))
+        if r != ("err", c["delete_raises"]) or not same():
+            return {"delete": repr(r)[:200], "want": c["delete_raises"], "rec": rec, "unchanged": same()}
+    return None
+
+
 def valid_case(c):
     if not (isinstance(c.get("tree"), dict) and c.get("mode") in ("n0", "wrap") and isinstance(c.get("ops"), list)):
         return False
@@ -181,6 +258,8 @@ def valid_case(c):
 
 
 def shrink_failure(evaluator, case):
+    if "miss" in case:
+        return case
     # a path text and the record of its hidden indexes stay together (and unchanged)
     texts = {(op.get("xp"), tuple(op.get("hid", []))) for op in case.get("ops", [])}
 
@@ -192,6 +271,11 @@ def shrink_failure(evaluator, case):
 
 def replay(rp):
     c = rp["case"]
+    if "miss" in c:
+        bad = check_miss_kind(c)
+        print("case:", c)
+        print("result:", "property holds" if bad is None else bad)
+        return 1 if bad else 0
     if "ops" in c:
         bad = check_history(c)
         print("case:", c)
@@ -235,6 +319,14 @@ def run(ctx):
             ex.append({"tree": t, "mode": "n0", "ops": [{"op": "popmiss", "d": "D", "xp": miss}]})
     ctx.evaluate("history/exhaustive", ex, check_history)
     ctx.extra["exhaustive_subspace"] = "all dict-rooted trees with <= %d nodes below the root, every position, delete / delete(recursively) / pop(recursively)" % nmax
+    # the kinds of miss the theorems C05_pop_miss_* / C05_delete_miss_* speak about, on the implementation
+    rngm = ctx.rng("miss kinds")
+    mk = []
+    for c in cases[: ctx.budget(800, 6000)]:
+        xp, kind, exc = gen_miss_kind(rngm, c["tree"])
+        mk.append({"tree": c["tree"], "mode": c["mode"], "miss": xp, "kind": kind, "delete_raises": exc})
+    ctx.evaluate("misskinds", mk, check_miss_kind)
+    ctx.extra["miss_kinds"] = {k: sum(1 for m in mk if m["kind"] == k) for k in ("unknown_key", "below_leaf", "out_of_range")}
     # B: every delete/pop step, model vs implementation from the implementation's state
     dsteps, psteps = [], []
     for c in cases:
